@@ -241,6 +241,10 @@ Definition cfgn (cfg : list Z) (i : nat) : Z := Z.max 0 (nth i cfg 0).
    cfg 24: a TEARDOWN phase ends the case (1: the service stops its run service from inside a
    handler and keeps working, 2: a foreign goroutine stops it): three more sessions are added
    before; what is produced after the stop may be dropped and is not counted. *)
+(* cfg 25: rounds in which a SECOND instrumented service arms 16 timers of its own while 8
+   expired timers of the first one are cancelled in its queue; the counts are the sum over both
+   services, a callback on the other service's loop goroutine is off-loop.  (Session messages
+   are sent with all four client message types; that changes no count.) *)
 Definition direct_mode (cfg : list Z) : bool := 0 <? cfgn cfg 23.
 Definition ov_local (cfg : list Z) : Z := if direct_mode cfg then 0 else cfgn cfg 15.
 Definition ov_global (cfg : list Z) : Z :=
@@ -253,7 +257,7 @@ Definition base_counts (cfg : list Z) : list Z :=
   let e := n 21%nat in
   let d := direct_mode cfg in
   [n 0%nat * n 1%nat + e; n 0%nat * n 2%nat; n 3%nat; n 4%nat;
-   n 5%nat * n 6%nat + (if d then 16 else 18) * e;
+   n 5%nat * n 6%nat + (if d then 16 else 18) * e + 16 * n 25%nat;
    n 7%nat * n 8%nat + n 3%nat + n 4%nat + (if d then 4 else 5) * e;
    (if d then 0 else n 9%nat * n 10%nat + 5 * e); n 9%nat * n 11%nat + e;
    n 12%nat + td_sess cfg; n 12%nat; n 12%nat * n 13%nat].
